@@ -28,7 +28,8 @@ def worker(k):
     subprocess.run(["git", "-C", "/repo", "worktree", "add", "--detach", repo, "HEAD"], capture_output=True, check=True)
     subprocess.run(["rsync", "-a", "--exclude", ".git", "--exclude", "seeded", "--exclude", "hunt", "--exclude", "work", "/verif/", ver + "/"], check=True)
     ct = os.path.join(ver, "harness", "Cargo.toml")
-    open(ct, "w").write(open(ct).read().replace('path = "/repo"', f'path = "{repo}"'))
+    txt = open(ct).read().replace('path = "/repo"', f'path = "{repo}"')
+    open(ct, "w").write(txt)
     env = dict(os.environ, VERIF_REPO=repo)
     for d in seeds[k::N]:
         prop = d.split("-")[0]
@@ -37,7 +38,9 @@ def worker(k):
         if r.returncode != 0:
             verdict = "patch does not apply"
         else:
-            out = subprocess.run(["./check", prop], cwd=ver, capture_output=True, text=True, env=env).stdout
+            pr = subprocess.run(["./check", prop], cwd=ver, capture_output=True, text=True, env=env)
+            out = pr.stdout
+            open(f"/var/tmp/seedpar_{d}.out", "w").write(out + "\n=== stderr\n" + pr.stderr)
             v = [l for l in out.split("\n") if l.startswith("VIOLATION")]
             found = [l for l in v if "no-failing-input-found" not in l]
             verdict = "CAUGHT with failing input" if found else ("CAUGHT (no-failing-input-found)" if v else "MISSED")
